@@ -219,7 +219,15 @@ func newNEnv(cfg nCfg) *nEnv {
 		c.UseMemoryMgmt(e.ga.Malloc, e.ga.Free)
 		if vrt.X != nil {
 			vrt.AccessHook = e.ga.Access
+			ga := e.ga
+			vrt.FaultClassifier = func(addr uintptr) string {
+				if ga.InArena(addr) {
+					return "use-after-free"
+				}
+				return ""
+			}
 		}
+		e.ga.OnFree = e.onFree
 	}
 	if cfg.delta {
 		c.UseDeltaInterleaving()
@@ -324,4 +332,36 @@ func resetFS() *vos.MemFS {
 	fs := vos.NewMemFS()
 	vos.FS = fs
 	return fs
+}
+
+// onFree is called by the guard allocator before a block is released: while the instance is in
+// service the block must not be reachable at any level of the structure (as a node or as the item
+// of a reachable node). Nitro.Close frees linked nodes by design, so the check stops there.
+func (e *nEnv) onFree(p unsafe.Pointer, size int) {
+	if e.closing || e.db == nil {
+		return
+	}
+	st := nitro.VerifStore(e.db)
+	head, tail := skiplist.VerifHead(st), skiplist.VerifTail(st)
+	if unsafe.Pointer(head) == p || unsafe.Pointer(tail) == p {
+		return
+	}
+	for l := skiplist.VerifLevel(st); l >= 0; l-- {
+		x, _ := skiplist.VerifNextRaw(head, l)
+		for steps := 0; x != tail && x != nil && steps < 1000; steps++ {
+			if e.ga.IsFreed(unsafe.Pointer(x)) {
+				e.ga.viol("freed-while-linked", fmt.Sprintf("a node reachable at level %d has already been returned to the allocator", l))
+				return
+			}
+			if unsafe.Pointer(x) == p {
+				e.ga.viol("freed-while-linked", fmt.Sprintf("a node is being released while it is still linked at level %d", l))
+				return
+			}
+			if x.Item() == p {
+				e.ga.viol("freed-while-linked", fmt.Sprintf("an item is being released while its node is still linked at level %d", l))
+				return
+			}
+			x, _ = skiplist.VerifNextRaw(x, l)
+		}
+	}
 }
